@@ -277,8 +277,13 @@ class Console:
                     touched.append(c["ac"])
             return [self.f_ac_status(pid, touched)] if touched else None
         if k == "timer_control":
+            zero = {"disabled": False, "hour": 0, "minute": 0}
             for t in r["timers"]:
                 if self.gen == 4 and t["ac"] not in self.timer:
+                    continue
+                if self.gen == 4 and t["on"] == zero and t["off"] == zero and len(r["timers"]) > 1:
+                    # AT4 0x36 always carries four implicit records; an all-zero record is read as
+                    # "AC not named in this command" (spec/undocumented_messages.md)
                     continue
                 if t["ac"] in self.timer:
                     self.timer[t["ac"]] = {"ac": t["ac"], "on": dict(t["on"]), "off": dict(t["off"])}
